@@ -45,7 +45,7 @@ enum OpKind : uint16_t {
   kArenaReset, kArenaStats,
   kStrAssign, kStrAppend, kStrAssignChars, kStrAppendChars, kStrAppendNumber, kStrAppendHex, kStrFormat, kStrPadEnd,
   kStrTruncate, kStrClear, kStrReset, kStrSwap, kStrMoveAssign, kStrEquals, kStrAssignSpan,
-  kAStrSet, kHashSwap,
+  kAStrSet, kHashSwap, kBitIterate,
   kOpCount
 };
 
@@ -62,7 +62,7 @@ const char* const kOpNames[kOpCount] = {
   "arena_reset", "arena_stats",
   "str_assign", "str_append", "str_assign_chars", "str_append_chars", "str_append_number", "str_append_hex", "str_format", "str_pad_end",
   "str_truncate", "str_clear", "str_reset", "str_swap", "str_move_assign", "str_equals", "str_assign_span",
-  "astr_set", "hash_swap"
+  "astr_set", "hash_swap", "bit_iterate"
 };
 
 const char* op_name(uint16_t k) { return k < kOpCount ? kOpNames[k] : "?"; }
@@ -512,6 +512,48 @@ void exec_op(World& w, const Op& op) {
     case kBitClear: { int i = int(op.a[0] & 1); w.bits[i].clear(); w.bits_model[i].clear(); break; }
     case kBitSwap: { w.bits[0].swap(w.bits[1]); w.bits_model[0].swap(w.bits_model[1]); check_bits(w, 0); check_bits(w, 1); break; }
     case kBitRelease: { int i = int(op.a[0] & 1); w.bits[i].release(arena); w.bits_model[i].clear(); break; }
+    case kBitIterate: {
+      // Support::BitVectorIterator / BitVectorOpIterator from an arbitrary start bit (also beyond the first word and beyond
+      // the end), over the words of the two bit sets and over 32-bit copies of them
+      auto& m0 = w.bits_model[0]; auto& m1 = w.bits_model[1];
+      size_t common = std::min(w.bits[0].size_in_bit_words(), w.bits[1].size_in_bit_words());
+      size_t start = size_t(op.a[1]) % (common * Support::bit_size_of<BitWord> + 70);
+      auto bit = [](const std::vector<bool>& m, size_t k) { return k < m.size() && m[k]; };
+      auto run = [&](auto it, size_t limit, int which, const char* what) {
+        size_t k = start;
+        auto expect = [&](size_t q) { bool a = bit(m0, q), b = bit(m1, q); return which == 0 ? a : which == 1 ? (a && b) : which == 2 ? (a || b) : which == 3 ? (a != b) : (a && !b); };
+        while (it.has_next()) {
+          size_t idx = it.next();
+          SIM_CHECK(idx >= start && idx < limit, "c18:bitvector-iterate", "%s from bit %zu produced index %zu (limit %zu)", what, start, idx, limit);
+          for (; k < idx; k++) SIM_CHECK(!expect(k), "c18:bitvector-iterate", "%s from bit %zu skipped bit %zu", what, start, k);
+          SIM_CHECK(expect(idx), "c18:bitvector-iterate", "%s from bit %zu produced bit %zu which is not in the result", what, start, idx);
+          k = idx + 1;
+        }
+        for (; k < limit; k++) SIM_CHECK(!expect(k), "c18:bitvector-iterate", "%s from bit %zu stopped before bit %zu", what, start, k);
+      };
+      if (w.bits[0].size_in_bit_words()) run(Support::BitVectorIterator<BitWord>(w.bits[0].as_span(), start), w.bits[0].size_in_bit_words() * Support::bit_size_of<BitWord>, 0, "BitVectorIterator");
+      if (common) {
+        size_t limit = common * Support::bit_size_of<BitWord>;
+        const BitWord* a = w.bits[0].data(); const BitWord* b = w.bits[1].data();
+        switch (op.a[2] % 4) {
+          case 0: run(Support::BitVectorOpIterator<BitWord, Support::And>(a, b, common, start), limit, 1, "BitVectorOpIterator<And>"); break;
+          case 1: run(Support::BitVectorOpIterator<BitWord, Support::Or>(a, b, common, start), limit, 2, "BitVectorOpIterator<Or>"); break;
+          case 2: run(Support::BitVectorOpIterator<BitWord, Support::Xor>(a, b, common, start), limit, 3, "BitVectorOpIterator<Xor>"); break;
+          default: run(Support::BitVectorOpIterator<BitWord, Support::AndNot>(a, b, common, start), limit, 4, "BitVectorOpIterator<AndNot>"); break;
+        }
+        // the same over 32-bit words
+        size_t words32 = std::min(m0.size(), m1.size()) / 32;
+        if (words32) {
+          std::vector<uint32_t> a32(words32, 0), b32(words32, 0);
+          for (size_t k = 0; k < words32 * 32; k++) { if (m0[k]) a32[k / 32] |= 1u << (k % 32); if (m1[k]) b32[k / 32] |= 1u << (k % 32); }
+          start %= words32 * 32 + 40;
+          run(Support::BitVectorOpIterator<uint32_t, Support::Xor>(a32.data(), b32.data(), words32, start), words32 * 32, 3, "BitVectorOpIterator<uint32_t, Xor>");
+          run(Support::BitVectorIterator<uint32_t>(Span<const uint32_t>(a32.data(), words32), start), words32 * 32, 0, "BitVectorIterator<uint32_t>");
+        }
+      }
+      sim::count("c18.probe.bitvector_iterate");
+      break;
+    }
     case kBitEquals: { bool e = w.bits[0].equals(w.bits[1]); SIM_CHECK(e == (w.bits_model[0] == w.bits_model[1]), "c18:bitset-equals", "equals() returned %d, model says %d", int(e), int(w.bits_model[0] == w.bits_model[1])); break; }
 
     case kPoolAlloc: {
@@ -838,7 +880,7 @@ Plan generate(uint64_t seed, bool thorough) {
       }
       case 3: { static const uint16_t ks[] = {kListAppend, kListPrepend, kListInsertBefore, kListInsertAfter, kListUnlink, kListPop, kListPopFirst}; op.kind = r.pick(ks); op.a[0] = int64_t(val_counter++); op.a[1] = int64_t(r.below(1000)); break; }
       case 4: {
-        static const uint16_t ks[] = {kBitResize, kBitResize, kBitAppend, kBitAppend, kBitSetBit, kBitFillBits, kBitClearBits, kBitFillAll, kBitClearAll, kBitAnd, kBitOr, kBitAndNot, kBitCopyFrom, kBitTruncate, kBitClear, kBitSwap, kBitRelease, kBitEquals};
+        static const uint16_t ks[] = {kBitResize, kBitResize, kBitAppend, kBitAppend, kBitSetBit, kBitFillBits, kBitClearBits, kBitFillAll, kBitClearAll, kBitAnd, kBitOr, kBitAndNot, kBitCopyFrom, kBitTruncate, kBitClear, kBitSwap, kBitRelease, kBitEquals, kBitIterate, kBitIterate};
         op.kind = r.pick(ks); op.a[0] = int64_t(r.below(2)); op.a[1] = int64_t(r.chance(1, 4) ? r.below(2000) : r.below(200)); op.a[2] = int64_t(r.below(1000)); op.a[3] = int64_t(r.below(4));
         break;
       }
